@@ -61,9 +61,10 @@ impl Prop for C19 {
     // program, the subscripts written inline or held in variables: access kernels keep their output between evaluations
     {
       use crate::props::c03::{gen_sel, index_text, index_matrix, FORMS1, FORMS2, Sel};
-      let kinds: Vec<&str> = if tier == Tier::Quick { vec![["f64", "u8", "bool", "string", "i64", "u64"][(seed % 6) as usize], "f64"] } else { vec!["f64", "u8", "bool", "string", "i64", "u64", "f32", "r64"] };
+      let kinds: Vec<&str> = if tier == Tier::Quick { vec![["f64", "u8", "bool", "string", "i64", "u64"][(seed % 6) as usize]] } else { vec!["f64", "u8", "bool", "string", "i64", "u64", "f32", "r64"] };
       for k in kinds {
         for (r, c) in [(3usize, 2usize), (2, 3), (4, 4), (1, 5), (5, 1)] {
+          if tier == Tier::Quick && (r == 1 || c == 1) { continue; }
           let mut formsets: Vec<Vec<&str>> = FORMS1.iter().map(|f| vec![*f]).collect();
           for a in FORMS2.iter() { for b in FORMS2.iter() { formsets.push(vec![*a, *b]); } }
           for forms in formsets {
